@@ -152,4 +152,10 @@ def NoDupRows : List (Row H) → Prop
   | [] => True
   | d :: rest => (∀ e ∈ rest, e.r ≠ d.r) ∧ NoDupRows rest
 
+instance decNoDupRows : (rows : List (Row H)) → Decidable (NoDupRows rows)
+  | [] => isTrue trivial
+  | d :: rest =>
+    have := decNoDupRows rest
+    by unfold NoDupRows; exact inferInstance
+
 end IronCalc.Sheet
